@@ -54,7 +54,50 @@ def _retarget(t, db):
             t["else"] += db
 
 
+def _into_to_from(facts, t):
+    """`x.into()` through std's blanket `impl Into<D> for S where D: From<S>`: when the `From<S> for D` impl is crate-local the
+    call *is* a call of that `from` (logic pushed into a conversion impl is spliced like any other helper)."""
+    if t.get("k") != "call" or t.get("resl"):
+        return
+    name = t.get("resa") or t.get("res") or t.get("decla") or t.get("decl") or ""
+    m = re.match(r"^<(.+) as std::convert::Into<(.+)>>::into$", name)
+    if not m:
+        return
+    # split at the top-level " as std::convert::Into<" (S itself may contain generics)
+    mark = " as std::convert::Into<"
+    depth = 0
+    cut = None
+    body = name[1:-len(">::into")]
+    for i, ch in enumerate(body):
+        if ch == "<":
+            depth += 1
+        elif ch == ">":
+            depth -= 1
+        elif depth == 0 and body.startswith(mark, i):
+            cut = i
+            break
+    if cut is None:
+        return
+    src, dst = body[:cut], body[cut + len(mark):-1]
+    key = "<%s as std::convert::From<%s>>::from" % (dst, src)
+    fns = facts.data["fns"]
+    if key not in fns:
+        from core import norm
+        nk = norm(key)
+        cands = [k for k in fns if k.endswith("::from") and norm(k) == nk]
+        if len(cands) != 1:
+            return
+        key = cands[0]
+    t["res"] = key
+    t["resa"] = key
+    t["decl"] = key
+    t["decla"] = key
+    t["resl"] = True
+    t["resk"] = "item"
+
+
 def inlinable(facts, t, stack, want=None, closures=False):
+    _into_to_from(facts, t)
     if t.get("k") != "call" or not t.get("resl") or is_noise(t) or t.get("no_splice"):
         return None
     ck = t.get("res")
